@@ -64,7 +64,7 @@ def run_engine(P, roots, scope=None, invariants=(), inline_depth=3, max_inline_b
     # every function of the scope must have been analysed in some context; the rest standalone.  Plain functions
     # first: closures handed to modelled combinators are then analysed at their call, with the arguments known.
     if scope is not None:
-        for _ in range(40):
+        for _ in range(len(scope) + 10):
             visited_fns = {n for (n, _b) in A.visited}
             missing = [n for n in sorted(scope) if n not in visited_fns and n in P.fns]
             if not missing:
